@@ -24,6 +24,13 @@ func VH_C13_single() {
 	m.Reset()
 	src, dst := m.Root("src"), m.Root("dst")
 	symCopyTree(src, 1, 1|4) // f, d, d/g, l -> f
+	setgidRoot := v.Bool("setgid-dst-root")
+	if setgidRoot {
+		// the destination root is set-group-ID with a foreign group: whatever Copy creates below it
+		// inherits that group unless it is explicitly re-owned
+		m.SetOwnerMode(dst, 02775, 0, 4321)
+		m.SetMtime(dst, 5)
+	}
 	srcSnap := m.Snapshot(src)
 	what := v.Choose("what", 4) // 0 file, 1 symlink, 2 symlink followed, 3 sub-directory
 	nested := v.Bool("nested-dst")
@@ -33,6 +40,9 @@ func VH_C13_single() {
 	if withOpts {
 		wantUID = v.U32("chown-uid")
 		v.Assume(wantUID < 1<<31)
+		if v.Bool("chown-to-own-ids") {
+			wantUID = 0 // the ids of the copying process itself
+		}
 		u := int(wantUID)
 		ci.Chown = func(*User) (*User, error) { return &User{UID: u, GID: u}, nil }
 		tm := time.Unix(1234, 0)
